@@ -138,7 +138,8 @@ Section Inv.
     inv_win : at_most_one can_win (snd s);
     inv_own : forall m, In m (mains (fst s)) -> owned (snd s) m;
     inv_nodup : NoDup (map m_id (mains (fst s)));
-    inv_ok : forall i t m, nth_error (snd s) i = Some t -> okres t = Some m -> m = l_me t /\ can_win t = true
+    inv_ok : forall i t m, nth_error (snd s) i = Some t -> okres t = Some m -> m = l_me t /\ can_win t = true;
+    inv_has : forall i t, nth_error (snd s) i = Some t -> has_rec t = true -> In (mk_rec P t) (mains (fst s))
   }.
 
   Lemma nth_upd_cases {A} (l : list A) i j x y :
@@ -168,7 +169,7 @@ Section Inv.
     destruct (step t (fst s)) as [t' s'] eqn:Hst.
     destruct (step_facts P t (fst s) t' s' Hst)
       as (Fme & Fkind & Fexp & Fenter & Frel & Fstay & Fwin & Fmains & Fok).
-    destruct HI as [Iids Ifree Icrit Iwin Iown Indup Iok].
+    destruct HI as [Iids Ifree Icrit Iwin Iown Indup Iok Ihas].
     assert (Hexp0 : expired s' = false -> expired (fst s) = false).
     { intros H. destruct (expired (fst s)) eqn:E; [rewrite (Fexp eq_refl) in H; discriminate | reflexivity]. }
     constructor; cbn [fst snd].
@@ -253,6 +254,23 @@ Section Inv.
         * destruct (Iok _ _ _ Hi Hold) as [-> Hw]. split; [congruence|]. rewrite Hsame. exact Hw.
         * split; [congruence|exact Hw].
       + exact (Iok _ _ _ Ha' Hpc).
+    - (* a caller whose record is supposed to be in the store has it there *)
+      assert (Hmk : mk_rec P t' = mk_rec P t) by (unfold mk_rec; rewrite Fkind, Fme; reflexivity).
+      intros a ta Ha Hrec.
+      destruct (nth_upd_cases _ _ _ _ _ Ha) as [(<- & -> & _)|(Hna & Ha')].
+      + rewrite Hmk.
+        destruct Fmains as [(Em & Er)|[(Em & Er0 & Er1 & l & la & ok & Ek)|(Em & Er)]]; rewrite Em.
+        * apply (Ihas _ _ Hi). congruence.
+        * left. reflexivity.
+        * congruence.
+      + assert (Hold := Ihas _ _ Ha' Hrec).
+        destruct Fmains as [(Em & Er)|[(Em & Er0 & Er1 & l & la & ok & Ek)|(Em & Er)]]; rewrite Em.
+        * exact Hold.
+        * right. exact Hold.
+        * apply filter_In. split; [exact Hold|]. unfold not_me.
+          assert (Hid : m_id (mk_rec P ta) = l_me ta) by (unfold mk_rec; destruct (l_kind ta); reflexivity).
+          rewrite Hid. destruct (Nat.eqb (l_me ta) (l_me t)) eqn:E; [|reflexivity].
+          apply Nat.eqb_eq in E. exfalso. apply Hna. exact (Iids _ _ _ _ Hi Ha' (eq_sym E)).
   Qed.
 
   (* callers that have not started (or were rejected on their parameters) *)
@@ -279,6 +297,8 @@ Section Inv.
     - rewrite Hm. intros m [].
     - rewrite Hm. constructor.
     - intros i t m Hi Hpc. destruct (fresh_classes t (F _ _ Hi)) as (_ & _ & E). exfalso. exact (E m Hpc).
+    - intros i t Hi Hrec. exfalso. destruct (F _ _ Hi) as [H|[e H]]; unfold has_rec in Hrec; rewrite H in Hrec;
+        destruct (l_kind t); discriminate.
   Qed.
 
   Theorem inv_all s sched : start_ok s -> Inv (srun s sched).
@@ -294,7 +314,7 @@ Section Inv.
       nth_error (snd (srun s sched)) i = Some ti -> nth_error (snd (srun s sched)) j = Some tj ->
       l_pc ti = PDone (ROk mi) -> l_pc tj = PDone (ROk mj) -> i = j.
   Proof.
-    intros H i j ti tj mi mj Hi Hj Hpi Hpj. destruct (inv_all s sched H) as [_ _ _ Iwin _ _ Iok].
+    intros H i j ti tj mi mj Hi Hj Hpi Hpj. destruct (inv_all s sched H) as [_ _ _ Iwin _ _ Iok _].
     apply (Iwin i j ti tj Hi Hj); [apply (Iok _ _ _ Hi (okres_done _ _ Hpi)) | apply (Iok _ _ _ Hj (okres_done _ _ Hpj))].
   Qed.
 
@@ -314,7 +334,7 @@ Section Inv.
     length (mains (fst s')) <= 1 /\
     (forall m, In m (mains (fst s')) -> exists t, In t (snd s') /\ l_pc t = PDone (ROk (m_id m))).
   Proof.
-    intros H s' Hdone. destruct (inv_all s sched H) as [_ _ _ Iwin Iown Indup Iok]. fold s' in Iwin, Iown, Indup, Iok.
+    intros H s' Hdone. destruct (inv_all s sched H) as [_ _ _ Iwin Iown Indup Iok _]. fold s' in Iwin, Iown, Indup, Iok.
     assert (W : forall m, In m (mains (fst s')) -> exists i t, nth_error (snd s') i = Some t /\ l_me t = m_id m /\ can_win t = true
                                                    /\ l_pc t = PDone (ROk (m_id m))).
     { intros m Hm. destruct (Iown m Hm) as (k & t & Hk & Hid & Hrec & _).
@@ -335,7 +355,7 @@ Section Inv.
     forall t e, In t (snd (srun s sched)) -> l_pc t = PDone (RErr e) ->
     forall m, In m (mains (fst (srun s sched))) -> m_id m <> l_me t.
   Proof.
-    intros H t e Ht Hpc m Hm Heq. destruct (inv_all s sched H) as [Iids _ _ _ Iown _ _].
+    intros H t e Ht Hpc m Hm Heq. destruct (inv_all s sched H) as [Iids _ _ _ Iown _ _ _].
     destruct (Iown m Hm) as (k & tk & Hk & Hid & Hrec & _).
     apply In_nth_error in Ht. destruct Ht as [j Hj].
     assert (k = j) by (apply (Iids _ _ _ _ Hk Hj); congruence). subst k.
@@ -348,9 +368,24 @@ Section Inv.
     m_target m = p_tgt P /\ m_taddr m = p_taddr P /\
     exists t ok, In t (snd (srun s sched)) /\ l_me t = m_id m /\ l_kind t = KAct (m_listen m) (m_laddr m) ok.
   Proof.
-    intros H m Hm. destruct (inv_all s sched H) as [_ _ _ _ Iown _ _].
+    intros H m Hm. destruct (inv_all s sched H) as [_ _ _ _ Iown _ _ _].
     destruct (Iown m Hm) as (k & t & Hk & Hid & _ & (ok & Hkind) & Ht & Ha).
     split; [exact Ht|]. split; [exact Ha|]. exists t, ok. split; [eapply nth_error_In; exact Hk|tauto].
+  Qed.
+
+  (* what a successful activation hands back: the id of the CALLER's own mapping, whose record is in the store, listens
+     for the caller's client and address and targets the code's client and address.  The result of a call is a function
+     of its own request and the store only — it can never be another caller's mapping. *)
+  Theorem returned_mapping_is_callers s sched : start_ok s ->
+    forall t m l la ok, In t (snd (srun s sched)) -> l_kind t = KAct l la ok -> l_pc t = PDone (ROk m) ->
+      m = l_me t /\
+      In {| m_id := m; m_listen := l; m_laddr := la; m_target := p_tgt P; m_taddr := p_taddr P |} (mains (fst (srun s sched))).
+  Proof.
+    intros H t m l la ok Ht Hk Hpc. destruct (inv_all s sched H) as [_ _ _ _ _ _ Iok Ihas].
+    apply In_nth_error in Ht. destruct Ht as [i Hi].
+    destruct (Iok _ _ _ Hi (okres_done _ _ Hpc)) as [-> _]. split; [reflexivity|].
+    assert (Hrec : has_rec t = true) by (unfold has_rec; rewrite Hk, Hpc; reflexivity).
+    assert (X := Ihas _ _ Hi Hrec). unfold mk_rec in X. rewrite Hk in X. exact X.
   Qed.
 
   (* ---------- revocation against activation ---------- *)
@@ -367,7 +402,7 @@ Section Inv.
       nth_error (snd (srun s sched)) i = Some ti -> nth_error (snd (srun s sched)) j = Some tj ->
       won ti -> won tj -> i = j.
   Proof.
-    intros H i j ti tj Hi Hj Wi Wj. destruct (inv_all s sched H) as [_ _ _ Iwin _ _ Iok].
+    intros H i j ti tj Hi Hj Wi Wj. destruct (inv_all s sched H) as [_ _ _ Iwin _ _ Iok _].
     assert (W : forall k t, nth_error (snd (srun s sched)) k = Some t -> won t -> can_win t = true).
     { intros k t Hk [[Hkind Hpc]|[m Hpc]].
       - unfold can_win. rewrite Hkind, Hpc. reflexivity.
@@ -434,7 +469,7 @@ Section Inv.
       snd (step t (fst (srun s sched))) = fst (srun s sched) /\
       exists e, l_pc (fst (step t (fst (srun s sched)))) = PRelAdm (RErr e).
   Proof.
-    intros H Hexp (tr & Hin & Hk & Hp). destruct (inv_all s sched H) as [_ Ifree _ _ _ _ _].
+    intros H Hexp (tr & Hin & Hk & Hp). destruct (inv_all s sched H) as [_ Ifree _ _ _ _ _ _].
     assert (Hc : claim (fst (srun s sched)) = true).
     { apply not_false_iff_true. intros E.
       apply In_nth_error in Hin. destruct Hin as [i Hi].
